@@ -507,8 +507,9 @@ fn inject_pdu(w: &World, d: &Value) -> PDU {
         "EOF" => (
             PDUPayload::Directive(Operations::EoF(EndOfFile {
                 condition: cond_from(d["cond"].as_str().unwrap_or("NoError")),
-                checksum: w.src_ck,
-                file_size: w.metadata.file_size,
+                // adversarial peers: "ckok": false = a checksum that is not the source's, "size" = another size
+                checksum: if d["ckok"].as_bool().unwrap_or(true) { w.src_ck } else { w.src_ck.wrapping_add(0x0101_0101) },
+                file_size: d["size"].as_u64().map(|n| n * sc).unwrap_or(w.metadata.file_size),
                 fault_location: None,
             })),
             Direction::ToReceiver,
